@@ -65,6 +65,19 @@ claim("C07",
       "Midpoint position, split-set and path-length equality are value-level and not decided.",
       NOTE, "DESIGN.md section 2, C07")
 
+claim("C02",
+      "table agreement: tokenizer delimiter/quote/comment sets vs regex protect classes at every escape call site; rooting-token and NeXML tag/attribute vocabulary agreement",
+      "Static: every printable-ASCII/TAB character that ends or splits an unquoted token is in the protect class of all 18 escape call sites; the space/underscore "
+      "clauses and the quote-doubling convention match the tokenizer; rooting/weight tokens emitted are recognised and interpreted with the right polarity; "
+      "every NeXML tree-side tag and data-carrying attribute written is read back. Equality of the re-read tree (topology, order, lengths) is not decided.",
+      NOTE, "DESIGN.md section 2, C02")
+claim("C09",
+      "writer/reader keyword-table agreement, suppress-flag polarity analysis through predicates, per-cell id minting check in the NeXML writer loop, vocabulary and data-type table agreement",
+      "Static: every NEXUS keyword/FORMAT term/DATATYPE value the writer emits has a reader branch; matrix labels are escaped with a covering protect class; each suppress_* "
+      "flag gates its emission negatively (also through predicates returning it); the NeXML <char> id of a cell is column-keyed, never minted per cell; characters-side "
+      "NeXML vocabulary and data-type tables agree. Equality of sequences, PHYLIP/FASTA label admissibility and interleaving are not decided.",
+      NOTE, "DESIGN.md section 2, C09")
+
 _PENDING = "rule module not yet built in this session (claimed in DESIGN.md; will move to checks when the rule lands)"
 for _p in ["C01","C02","C03","C04","C05","C06","C07","C08","C09","C10","C11","C12","C13","C15","C16","C18","C20"]:
     if _p not in CLAIMED:
